@@ -888,7 +888,7 @@ def _only_args(t):
         return True
     if t and t[0] in ("ret", "phi", "loc", "unk", "loc2"):
         return False
-    return all(_only_args(x) for x in t[1:])
+    return all(_only_args(x) for x in (t if (t and isinstance(t[0], tuple)) else t[1:]))
 
 
 def _vm_saturating_sub(an, st, t, args):
